@@ -296,6 +296,11 @@ def run(prop: str, tier: str) -> int:
             for j in ijobs:
                 j['id'] = j['id'].replace('-s', '-i')
             jobs += ijobs
+        if prop == 'C01':
+            # the boundary: nothing is requested
+            for k, backend in enumerate(('serial', 'fork', 'spawn')):
+                jobs.append({'id': f'{prop}-e{k}', 'cfg': dict(sample[0], req=[], cached0=[], fail=[], badload=[], backend=backend),
+                             'schedule': [], 'shape_seed': k})
         jrnd = random.Random(seed + 5)
         if spec.get('jobfn'):
             for j in jobs:
@@ -321,6 +326,11 @@ def run(prop: str, tier: str) -> int:
                 rjobs.append({'id': f'{prop}-w{k}', 'cfg': wide, 'actions': [], 'shape_seed': 0, 'maxw_none': True,
                               'displays': bool(spec.get('wide_displays')),       # run_tasks' default display options
                               'rest_samples': 3 if spec.get('wide_displays') else 1})  # (the displays refresh between polls)
+                if spec.get('wide_displays'):
+                    # the documented display options, other than their defaults
+                    rjobs.append({'id': f'{prop}-wo{k}', 'cfg': wide, 'actions': [], 'shape_seed': 0, 'maxw_none': True, 'displays': True,
+                                  'rest_samples': 3,
+                                  'top_options': {'top_n': 2, 'top_sort': '-cpu', 'top_format': '$name $pid $status $children $threads $vms'}})
         if spec.get('real_jobfn'):
             for j in rjobs:
                 spec['real_jobfn'](j, jrnd)
